@@ -7,7 +7,7 @@ pub type TeraResult<T> = Result<T, Error>;
 
 impl Error {
     #[verifier::external_body]
-    pub fn message(message: String) -> Error { unimplemented!() }
+    pub fn message<T>(message: T) -> Error { unimplemented!() }
 }
 
 // R1: the text of a formatted message is dropped
